@@ -127,6 +127,18 @@ def job_roundtrip(job):
                 fm2 = m.filter(lambda k, v: k in sel)
                 if dict(zip(fm2.keys(), fm2.values())) != {k: v for k, v in supplied.items() if k in sel}:
                     fail({'config': cfg, 'form': form, 'what': 'filter() differs', 'keys': list(ks)})
+                # the part that filter() keeps is a multivector like any other (in graded mode it stores incomplete grades): accessors
+                # on it read exactly the blades it stores
+                kept = {k: v for k, v in supplied.items() if k in sel}
+                for K in range(N) if N <= 16 else rng.sample(range(N), 16):
+                    g3 = _safe(lambda: getattr(fm2, names[K]))
+                    if g3[0] != 'value' or not O.iszero(g3[1] - kept.get(K, 0)):
+                        fail({'config': cfg, 'form': form + ' -> filter()', 'what': 'attribute access on a filtered multivector differs', 'blade': names[K],
+                              'stored_keys': list(fm2.keys()), 'got': str(g3)[:120], 'expected': str(kept.get(K, 0))})
+                        break
+                gg = _safe(lambda: fm2.grade(*range(alg.d + 1)))
+                if gg[0] != 'value' or dict(zip(gg[1].keys(), gg[1].values())) != kept:
+                    fail({'config': cfg, 'form': form + ' -> filter()', 'what': 'grade() on a filtered multivector differs', 'stored_keys': list(fm2.keys())})
             # graded mode: complete grades given in another order either raise or are stored blade-correctly
             if cfg.get('graded') and len(ks) > 1:
                 perm = list(range(len(ks)))
